@@ -72,7 +72,8 @@ def drive(tier):
             for t in built:
                 k, w = call(t.calc_weight)
                 out["weights"].append(w if k == "ret" else -1)
-            out["bweight"] = blk.GetWeight()
+            kw_, bw_ = call(blk.GetWeight)
+            out["bweight"] = bw_ if kw_ == "ret" else -1
             hj = gen.header_json(h)
             hj["merkle"] = b2l(blk.hashMerkleRoot)
             R.add("merkle.block", {"vtx": [gen.tx_json(t) for t in txs], "hdr": hj, "n": n, "variant": variant}, out)
